@@ -26,6 +26,23 @@ TP = 'task_pool'
 
 
 def check(c):
+    # whether a finished task counts as complete when its flow comes back is
+    # judged on the outputs of *every* DB row overlapping its flows (rows of
+    # merged / partial flows each hold a part): the history loader does not
+    # stop at the first overlapping row
+    lh = c.func('task_pool', 'TaskPool._load_historical_outputs')
+    hl = [n for n in c.idx.walk(lh.node) if isinstance(n, ast.For)
+          and norm(n.iter).endswith('.items()') and isinstance(
+              n.target, ast.Tuple) and len(n.target.elts) == 2]
+    c.floor('C11.history', f'{lh.fq} :: loop over the recorded output rows',
+            len(hl), 1)
+    for lp in hl:
+        ex = [x for x in ast.walk(lp) if isinstance(x, (ast.Break, ast.Return))]
+        c.ob('C11.history', c.key(lp, lh)[:90] + ' visits every row', not ex,
+             c.where(ex[0], lh) if ex else c.where(lp, lh), '' if not ex else
+             'the loop stops at the first overlapping row: status and outputs '
+             'can come from different rows, a completed task is revived as '
+             'incomplete')
     final = ['failed', 'succeeded', 'expired', 'submit-failed']
     ric = c.func(TP, 'TaskPool.remove_if_complete')
     n8 = 0
@@ -205,6 +222,13 @@ def check(c):
 
 
 VARIANTS = [
+    ('history-first-row-only', 'cylc/flow/task_pool.py',
+     '''                        for msg in outputs:
+                            itask.state.outputs.set_message_complete(msg)
+''', '''                        for msg in outputs:
+                            itask.state.outputs.set_message_complete(msg)
+                    break
+''', 'C11.history'),
     ('fail-optional-only-gets-no-part', 'cylc/flow/task_outputs.py',
      '''        else:
             parts.append(
